@@ -24,6 +24,16 @@ func poly(x []float64) float64 {
 	return s
 }
 
+// dirtyFloats returns n distinct non-zero integers (exactly representable, so an accumulation into
+// stale contents changes the result bit pattern).
+func dirtyFloats(n int) []float64 {
+	d := make([]float64, n)
+	for i := range d {
+		d[i] = float64(1000 + 37*i)
+	}
+	return d
+}
+
 type evalLog struct{ pts []string }
 
 func (l *evalLog) add(x ...[]float64) {
@@ -64,144 +74,165 @@ func genFD(g *vlib.G) {
 					for i := range x0 {
 						x0[i] = float64(i + 1)
 					}
-					key := fmt.Sprintf("dim=%d formula=%s originKnown=%v procs=%d", dim, fm.name, ok, procs)
-					g.Case("Gradient "+key, func(t *vlib.T) {
-						set := func(conc bool) *fd.Settings {
-							return &fd.Settings{Formula: fm.f, Step: 1, OriginKnown: ok, OriginValue: poly(x0), Concurrent: conc}
+					key0 := fmt.Sprintf("dim=%d formula=%s originKnown=%v procs=%d", dim, fm.name, ok, procs)
+					// dst states: a fresh (nil / zeroed) destination and a correctly sized one still holding
+					// other data (e.g. the previous result); the documented result does not depend on it.
+					for _, dirty := range []bool{false, true} {
+						dirty := dirty
+						key := key0
+						if dirty {
+							key += " dst=dirty"
 						}
-						vrt.Procs = procs
-						defer func() { vrt.Procs = 0 }()
-						var slog evalLog
-						want := fd.Gradient(nil, func(x []float64) float64 { slog.add(x); return poly(x) }, x0, set(false))
-						var got []float64
-						var clog evalLog
-						body := func() {
-							clog = evalLog{}
-							x := append([]float64(nil), x0...)
-							got = fd.Gradient(nil, func(x []float64) float64 {
-								point("f")
-								clog.add(x)
-								return poly(x)
-							}, x, set(true))
-						}
-						explore(t, g, dim == 1, body, func(x *vsched.Exec) string {
-							if bits(got) != bits(want) {
-								return fmt.Sprintf("gradient %v != serial %v", got, want)
+						g.Case("Gradient "+key, func(t *vlib.T) {
+							set := func(conc bool) *fd.Settings {
+								return &fd.Settings{Formula: fm.f, Step: 1, OriginKnown: ok, OriginValue: poly(x0), Concurrent: conc}
 							}
-							if clog.key() != slog.key() {
-								return fmt.Sprintf("evaluation points differ from the serial run: %v vs %v", clog.key(), slog.key())
-							}
-							return ""
-						})
-					})
-					set := func(conc bool) *fd.Settings {
-						return &fd.Settings{Formula: fm.f, Step: 1, OriginKnown: ok, OriginValue: poly(x0), Concurrent: conc}
-					}
-					if (dim == 1 || (g.Thorough() && dim == 2)) && fm.name != "Backward" {
-						g.Case("Hessian "+key, func(t *vlib.T) {
 							vrt.Procs = procs
 							defer func() { vrt.Procs = 0 }()
 							var slog evalLog
-							want := mat.NewSymDense(dim, nil)
-							fd.Hessian(want, func(x []float64) float64 { slog.add(x); return poly(x) }, x0, set(false))
-							var got *mat.SymDense
+							want := fd.Gradient(nil, func(x []float64) float64 { slog.add(x); return poly(x) }, x0, set(false))
+							var got []float64
 							var clog evalLog
 							body := func() {
 								clog = evalLog{}
-								got = mat.NewSymDense(dim, nil)
-								fd.Hessian(got, func(x []float64) float64 {
+								x := append([]float64(nil), x0...)
+								var dst []float64
+								if dirty {
+									dst = dirtyFloats(dim)
+								}
+								got = fd.Gradient(dst, func(x []float64) float64 {
 									point("f")
 									clog.add(x)
 									return poly(x)
-								}, append([]float64(nil), x0...), set(true))
+								}, x, set(true))
 							}
-							explore(t, g, false, body, func(x *vsched.Exec) string {
-								for i := 0; i < dim; i++ {
-									for j := i; j < dim; j++ {
-										if math.Float64bits(got.At(i, j)) != math.Float64bits(want.At(i, j)) {
-											return fmt.Sprintf("hessian[%d,%d] %v != serial %v", i, j, got.At(i, j), want.At(i, j))
+							explore(t, g, dim == 1, body, func(x *vsched.Exec) string {
+								if bits(got) != bits(want) {
+									return fmt.Sprintf("gradient %v != serial %v", got, want)
+								}
+								if clog.key() != slog.key() {
+									return fmt.Sprintf("evaluation points differ from the serial run: %v vs %v", clog.key(), slog.key())
+								}
+								return ""
+							})
+						})
+						set := func(conc bool) *fd.Settings {
+							return &fd.Settings{Formula: fm.f, Step: 1, OriginKnown: ok, OriginValue: poly(x0), Concurrent: conc}
+						}
+						if (dim == 1 || (g.Thorough() && dim == 2)) && fm.name != "Backward" {
+							g.Case("Hessian "+key, func(t *vlib.T) {
+								vrt.Procs = procs
+								defer func() { vrt.Procs = 0 }()
+								var slog evalLog
+								want := mat.NewSymDense(dim, nil)
+								fd.Hessian(want, func(x []float64) float64 { slog.add(x); return poly(x) }, x0, set(false))
+								var got *mat.SymDense
+								var clog evalLog
+								body := func() {
+									clog = evalLog{}
+									got = mat.NewSymDense(dim, nil)
+									if dirty {
+										got = mat.NewSymDense(dim, dirtyFloats(dim*dim))
+									}
+									fd.Hessian(got, func(x []float64) float64 {
+										point("f")
+										clog.add(x)
+										return poly(x)
+									}, append([]float64(nil), x0...), set(true))
+								}
+								explore(t, g, false, body, func(x *vsched.Exec) string {
+									for i := 0; i < dim; i++ {
+										for j := i; j < dim; j++ {
+											if math.Float64bits(got.At(i, j)) != math.Float64bits(want.At(i, j)) {
+												return fmt.Sprintf("hessian[%d,%d] %v != serial %v", i, j, got.At(i, j), want.At(i, j))
+											}
 										}
 									}
-								}
-								if clog.key() != slog.key() {
-									return fmt.Sprintf("evaluation points differ from the serial run")
-								}
-								return ""
+									if clog.key() != slog.key() {
+										return fmt.Sprintf("evaluation points differ from the serial run")
+									}
+									return ""
+								})
 							})
-						})
-						g.Case("CrossLaplacian "+key, func(t *vlib.T) {
-							vrt.Procs = procs
-							defer func() { vrt.Procs = 0 }()
-							y0 := make([]float64, dim)
-							for i := range y0 {
-								y0[i] = float64(2 - i)
+							if !dirty {
+								g.Case("CrossLaplacian "+key, func(t *vlib.T) {
+									vrt.Procs = procs
+									defer func() { vrt.Procs = 0 }()
+									y0 := make([]float64, dim)
+									for i := range y0 {
+										y0[i] = float64(2 - i)
+									}
+									f2 := func(x, y []float64) float64 { return poly(x)*poly(y) + poly(y) }
+									set2 := func(conc bool) *fd.Settings {
+										return &fd.Settings{Formula: fm.f, Step: 1, OriginKnown: ok, OriginValue: f2(x0, y0), Concurrent: conc}
+									}
+									var slog evalLog
+									want := fd.CrossLaplacian(func(x, y []float64) float64 { slog.add(x, y); return f2(x, y) }, x0, y0, set2(false))
+									var got float64
+									var clog evalLog
+									body := func() {
+										clog = evalLog{}
+										got = fd.CrossLaplacian(func(x, y []float64) float64 {
+											point("f")
+											clog.add(x, y)
+											return f2(x, y)
+										}, append([]float64(nil), x0...), append([]float64(nil), y0...), set2(true))
+									}
+									explore(t, g, false, body, func(x *vsched.Exec) string {
+										if math.Float64bits(got) != math.Float64bits(want) {
+											return fmt.Sprintf("cross laplacian %v != serial %v", got, want)
+										}
+										if clog.key() != slog.key() {
+											return fmt.Sprintf("evaluation points differ from the serial run")
+										}
+										return ""
+									})
+								})
 							}
-							f2 := func(x, y []float64) float64 { return poly(x)*poly(y) + poly(y) }
-							set2 := func(conc bool) *fd.Settings {
-								return &fd.Settings{Formula: fm.f, Step: 1, OriginKnown: ok, OriginValue: f2(x0, y0), Concurrent: conc}
-							}
-							var slog evalLog
-							want := fd.CrossLaplacian(func(x, y []float64) float64 { slog.add(x, y); return f2(x, y) }, x0, y0, set2(false))
-							var got float64
-							var clog evalLog
-							body := func() {
-								clog = evalLog{}
-								got = fd.CrossLaplacian(func(x, y []float64) float64 {
-									point("f")
-									clog.add(x, y)
-									return f2(x, y)
-								}, append([]float64(nil), x0...), append([]float64(nil), y0...), set2(true))
-							}
-							explore(t, g, false, body, func(x *vsched.Exec) string {
-								if math.Float64bits(got) != math.Float64bits(want) {
-									return fmt.Sprintf("cross laplacian %v != serial %v", got, want)
+						}
+						if dim <= 2 {
+							g.Case("Jacobian "+key, func(t *vlib.T) {
+								vrt.Procs = procs
+								defer func() { vrt.Procs = 0 }()
+								m := dim + 1
+								fn := func(y, x []float64) {
+									for i := range y {
+										y[i] = poly(x) * float64(i+1)
+									}
 								}
-								if clog.key() != slog.key() {
-									return fmt.Sprintf("evaluation points differ from the serial run")
+								var origin []float64
+								if ok {
+									origin = make([]float64, m)
+									fn(origin, x0)
 								}
-								return ""
+								want := mat.NewDense(m, dim, nil)
+								nser := 0
+								fd.Jacobian(want, func(y, x []float64) { nser++; fn(y, x) }, x0, &fd.JacobianSettings{Formula: fm.f, Step: 1, OriginValue: origin})
+								var got *mat.Dense
+								ncon := 0
+								body := func() {
+									ncon = 0
+									got = mat.NewDense(m, dim, nil)
+									if dirty {
+										got = mat.NewDense(m, dim, dirtyFloats(m*dim))
+									}
+									fd.Jacobian(got, func(y, x []float64) {
+										point("f")
+										vlib.Atomically(func() { ncon++ })
+										fn(y, x)
+									}, append([]float64(nil), x0...), &fd.JacobianSettings{Formula: fm.f, Step: 1, OriginValue: origin, Concurrent: true})
+								}
+								explore(t, g, false, body, func(x *vsched.Exec) string {
+									if bits(got.RawMatrix().Data) != bits(want.RawMatrix().Data) {
+										return fmt.Sprintf("jacobian %v != serial %v", got.RawMatrix().Data, want.RawMatrix().Data)
+									}
+									if ncon != nser {
+										return fmt.Sprintf("f called %d times, serial run %d", ncon, nser)
+									}
+									return ""
+								})
 							})
-						})
-					}
-					if dim <= 2 {
-						g.Case("Jacobian "+key, func(t *vlib.T) {
-							vrt.Procs = procs
-							defer func() { vrt.Procs = 0 }()
-							m := dim + 1
-							fn := func(y, x []float64) {
-								for i := range y {
-									y[i] = poly(x) * float64(i+1)
-								}
-							}
-							var origin []float64
-							if ok {
-								origin = make([]float64, m)
-								fn(origin, x0)
-							}
-							want := mat.NewDense(m, dim, nil)
-							nser := 0
-							fd.Jacobian(want, func(y, x []float64) { nser++; fn(y, x) }, x0, &fd.JacobianSettings{Formula: fm.f, Step: 1, OriginValue: origin})
-							var got *mat.Dense
-							ncon := 0
-							body := func() {
-								ncon = 0
-								got = mat.NewDense(m, dim, nil)
-								fd.Jacobian(got, func(y, x []float64) {
-									point("f")
-									vlib.Atomically(func() { ncon++ })
-									fn(y, x)
-								}, append([]float64(nil), x0...), &fd.JacobianSettings{Formula: fm.f, Step: 1, OriginValue: origin, Concurrent: true})
-							}
-							explore(t, g, false, body, func(x *vsched.Exec) string {
-								if bits(got.RawMatrix().Data) != bits(want.RawMatrix().Data) {
-									return fmt.Sprintf("jacobian %v != serial %v", got.RawMatrix().Data, want.RawMatrix().Data)
-								}
-								if ncon != nser {
-									return fmt.Sprintf("f called %d times, serial run %d", ncon, nser)
-								}
-								return ""
-							})
-						})
+						}
 					}
 				}
 				for _, fm := range formulas2 {
